@@ -1350,22 +1350,22 @@ theorem stepRun_InvB {cfg : Cfg} {s : St} (a : InvA cfg s) (r : InvR s) (i : Inv
     · rename_i u hp
       have hnc := not_closer_of_prog i0 (show s0.prog t ≠ .inClose by rw [hp]; simp)
       split
-      · have i1 : InvB ({ s0 with vres := none, rcvBusy := false, gone := s0.gone ++ s0.vres.toList.map (fun n => (n, false)) } : St) :=
+      · have i1 : InvB ({ s0 with vres := none, rcvBusy := false, queue := s0.vres.toList ++ s0.queue } : St) :=
           InvB.of_bcore (s := s0) rfl i0
         exact (i1.emit (o := .ret u .eoq)).finish t hnc
-      · have i1 : InvB ({ s0 with vres := none, rcvBusy := false, gone := s0.gone ++ s0.vres.toList.map (fun n => (n, false)) } : St) :=
+      · have i1 : InvB ({ s0 with vres := none, rcvBusy := false, queue := s0.vres.toList ++ s0.queue } : St) :=
           InvB.of_bcore (s := s0) rfl i0
         exact (i1.emit (o := .ret u .cancelled)).finish t hnc
     · rename_i u hp
       have htu : t = .U u := allowed_loginWait (by rw [hp] at htyp; exact htyp)
       have hnc := not_closer_of_prog i0 (show s0.prog t ≠ .inClose by rw [hp]; simp)
       split
-      · have i1 : InvB ({ s0 with vres := none, rcvBusy := false, gone := s0.gone ++ s0.vres.toList.map (fun n => (n, false)) } : St) :=
+      · have i1 : InvB ({ s0 with vres := none, rcvBusy := false, queue := s0.vres.toList ++ s0.queue } : St) :=
           InvB.of_bcore (s := s0) rfl i0
         exact (i1.emit (o := .ret u .refused)).finish t hnc
-      · have i1 : InvB ({ s0 with vres := none, rcvBusy := false, gone := s0.gone ++ s0.vres.toList.map (fun n => (n, false)) } : St) :=
+      · have i1 : InvB ({ s0 with vres := none, rcvBusy := false, queue := s0.vres.toList ++ s0.queue } : St) :=
           InvB.of_bcore (s := s0) rfl i0
-        have a1 : InvA cfg ({ s0 with vres := none, rcvBusy := false, gone := s0.gone ++ s0.vres.toList.map (fun n => (n, false)) } : St) :=
+        have a1 : InvA cfg ({ s0 with vres := none, rcvBusy := false, queue := s0.vres.toList ++ s0.queue } : St) :=
           InvA.of_core (s := s0) rfl a0
         have i2 := i1.restatus t .ready (by exact hal) (by intro y; show s0.status t ≠ _; rw [hst]; simp) rfl (by simp) (by simp)
           (by simp) (fun h => absurd h hnc) (fun _ => Or.inr (by intro j; rw [htu]; exact stageOf_user u j))
